@@ -10,7 +10,7 @@ PROP = 'C10'
 X64 = True
 RULE = ('scenes: a (possibly tilted) plane + 2-3 free bodies with 1-2 sphere / '
         'capsule geoms each (random radius, half-length, local pose, per-geom '
-        'elasticity); 5 random link poses per scene with distances in '
+        'elasticity incl. exactly 0 and 1, optional global default); 5 random link poses per scene (+2 with geoms re-attached through sys.replace) with distances in '
         '[-0.3, 0.7]. One event = one contact row (dist, normal, link_idx, '
         'elasticity) or one pair-set comparison. distinct = (scene, pose); '
         'non-trivial = the pose has both penetrating and separated rows')
@@ -40,7 +40,7 @@ def floors(tier):
   f = {'ev:pair_set': 300 * k, 'ev:link_attribution': 2000 * k,
        'ev:elasticity_mean': 2000 * k, 'ev:normal_unit': 2000 * k,
        'rows_penetrating': 60 * k, 'rows_separated': 300 * k,
-       'scenes_tilted_plane': 10 * k}
+       'scenes_tilted_plane': 10 * k, 'scenes_with_reattached_geoms': 50 * k}
   for kind in ('plane-sphere', 'plane-capsule', 'sphere-sphere',
                'sphere-capsule', 'capsule-capsule'):
     f['ev:dist:' + kind] = 60 * k
@@ -106,8 +106,13 @@ def run(job, mon):
       pq = np.concatenate([[np.cos(ang / 2)], np.sin(ang / 2) * ax])
       mon.count('scenes_tilted_plane')
     pp = np.array([0., 0, rng.uniform(-0.2, 0.2)])
+    def elast():
+      # special values 0 and 1 as well as generic ones
+      return float(rng.choice([0.0, 1.0, rng.uniform(0, 1), rng.uniform(0, 1)]))
+    # optional global default, and geoms left out of the tuple fall back to it
+    default_el = float(rng.uniform(0.1, 0.9)) if rng.random() < 0.5 else None
     geoms = [dict(name='floor', typ='plane', body=-1, pos=pp, quat=pq,
-                  el=float(rng.uniform(0, 1)))]
+                  el=elast())]
     bodies = ''
     for i in range(nb):
       gs = ''
@@ -116,25 +121,51 @@ def run(job, mon):
         size = rng.uniform(0.05, 0.2, 1 if typ == 'sphere' else 2)
         g = dict(name='g%d_%d' % (i, k), typ=typ, body=i, size=size,
                  pos=rng.uniform(-.2, .2, 3), quat=gen.rquat(rng),
-                 el=float(rng.uniform(0, 1)))
+                 el=elast())
         geoms.append(g)
         gs += '<geom name="%s" type="%s" size="%s" pos="%s" quat="%s"/>' % (
             g['name'], typ, gen.fmt(size), gen.fmt(g['pos']),
             gen.fmt(g['quat']))
       bodies += '<body name="b%d" pos="0 0 1"><freejoint/>%s</body>' % (i, gs)
+    in_tuple = [g for g in geoms
+                if default_el is None or rng.random() < 0.8]
+    for g in geoms:
+      if g not in in_tuple:
+        g['el'] = default_el
+        mon.count('geoms_using_default_elasticity')
     els = ''.join('<element objtype="geom" objname="%s" prm="%r"/>' % (
-        g['name'], g['el']) for g in geoms)
-    xml = ('<mujoco><custom><tuple name="elasticity">%s</tuple></custom>'
+        g['name'], g['el']) for g in in_tuple)
+    num = '' if default_el is None else (
+        '<numeric name="elasticity" data="%r"/>' % default_el)
+    if not in_tuple:
+      in_tuple = geoms[:1]
+      els = '<element objtype="geom" objname="%s" prm="%r"/>' % (
+          geoms[0]['name'], geoms[0]['el'])
+    xml = ('<mujoco><custom>' + num + '<tuple name="elasticity">%s</tuple></custom>'
            '<worldbody><geom name="floor" type="plane" size="5 5 .1" '
            'pos="%s" quat="%s"/>%s</worldbody></mujoco>') % (
                els, gen.fmt(pp), gen.fmt(pq), bodies)
     sysb = mjcf.loads(xml)
-    getc = jax.jit(lambda x: contact.get(sysb, x))
+    getc = jax.jit(lambda s_, x: contact.get(s_, x))
     pn = qrot(pq, np.array([0., 0, 1]))
-    for pose in range(5):
+    sys_used = sysb
+    for pose in range(7):
+      if pose == 5:
+        # poses 5-6: the same scene with the body geoms re-attached at new
+        # local offsets / orientations through sys.replace (as domain
+        # randomisation does); contact.get must follow the system it is given
+        gp = np.asarray(sysb.geom_pos).copy()
+        gq = np.asarray(sysb.geom_quat).copy()
+        for gi, g in enumerate(geoms):
+          if g['body'] >= 0:
+            g['pos'] = rng.uniform(-.2, .2, 3)
+            g['quat'] = gen.rquat(rng)
+            gp[gi], gq[gi] = g['pos'], g['quat']
+        sys_used = sysb.replace(geom_pos=jp.array(gp), geom_quat=jp.array(gq))
+        mon.count('scenes_with_reattached_geoms')
       xpos = rng.uniform(-0.3, 0.3, (nb, 3)) + pp + pn * rng.uniform(0.0, 0.5)
       xrot = np.array([gen.rquat(rng) for _ in range(nb)])
-      c = getc(Transform(pos=jp.array(xpos), rot=jp.array(xrot)))
+      c = getc(sys_used, Transform(pos=jp.array(xpos), rot=jp.array(xrot)))
       gg = np.asarray(c.geom)
       dist = np.asarray(c.dist)
       nrm = np.asarray(c.frame)[:, 0]
